@@ -752,6 +752,7 @@ class Machine:
         self.rsp_tag = "RSP0!"
         self.RSP0 = z3.BitVec(self.rsp_tag, 64)
         self.M0 = z3.Array("M0", z3.BitVecSort(64), z3.BitVecSort(8))
+        self.FSMEM = z3.Array("FSMEM", z3.BitVecSort(64), z3.BitVecSort(64))      # %fs:disp -> 64-bit word (disp 0: the thread pointer)
         self.TP = z3.BitVec("TP", 64)
         self.syms = {}
         self.nfresh = 0
